@@ -83,9 +83,8 @@ type Upstream struct {
 	aliasCh chan map[uint32]*message.DataID
 	resCh   chan []*message.UpstreamChunkResult
 
-	dpgCh                   chan *DataPointGroup
-	explicitlyFlushCh       chan (<-chan struct{})
-	explicitlyFlushResultCh chan error
+	dpgCh             chan *DataPointGroup
+	explicitlyFlushCh chan flushRequest
 
 	// activeWrites counts the WriteDataPoints calls that are between their draining check and their
 	// hand-off to the flush loop; Close waits for them so that every write it let through is drained.
@@ -413,12 +412,10 @@ func (u *Upstream) flushLoop(ctx context.Context) {
 				u.logger.Errorf(u.ctx, "failed to flush: %+v", err)
 			}
 			return
-		case remoteDone := <-u.explicitlyFlushCh:
-			select {
-			case u.explicitlyFlushResultCh <- u.flush(ctx):
-			case <-remoteDone:
-			case <-ctx.Done():
-			}
+		case req := <-u.explicitlyFlushCh:
+			// every request carries its own (buffered) result channel: with one shared channel a Flush whose
+			// context had ended could still pick up the result meant for the next caller, which then waited for good
+			req.result <- u.flush(ctx)
 			continue
 		case <-ticker:
 			u.flush(ctx)
@@ -450,8 +447,9 @@ func (u *Upstream) Flush(ctx context.Context) error {
 	if u.isClosed() {
 		return errors.ErrStreamClosed
 	}
+	req := flushRequest{result: make(chan error, 1)}
 	select {
-	case u.explicitlyFlushCh <- ctx.Done():
+	case u.explicitlyFlushCh <- req:
 	case <-u.ctx.Done():
 		return errors.ErrStreamClosed
 	case <-ctx.Done():
@@ -462,9 +460,14 @@ func (u *Upstream) Flush(ctx context.Context) error {
 		return ctx.Err()
 	case <-u.ctx.Done():
 		return errors.ErrStreamClosed
-	case err := <-u.explicitlyFlushResultCh:
+	case err := <-req.result:
 		return err
 	}
+}
+
+// flushRequest is what Flush hands to the flush loop: the loop answers on the request's own channel.
+type flushRequest struct {
+	result chan error
 }
 
 func (u *Upstream) validateState() error {
